@@ -7,6 +7,7 @@ mod c04;
 mod c06;
 mod c14;
 mod check;
+mod cuts;
 mod history;
 mod hooks;
 mod model;
